@@ -74,6 +74,13 @@ DIRECTED_LOOPS = [
     ("ranges", "var r = i..(i + 3); prev = r.iter();"),
     ("string-iterator", "prev = (\"ab\" + \"cd\").iter();"),
     ("bound-native", "prev = [i, i].len;"),
+    ("failed-class-declaration", "try { var NotC = i; #[derive(NotC)] class Bad { fn m(self) { return 1; } } } catch e { prev = e; }"),
+    ("failed-class-declaration-undefined-base", "try { #[derive(NoSuchBase)] class Bad2 {} } catch e { prev = e; }"),
+    ("failed-import", "try { import \"no_such_module_here\"; } catch e { prev = e; }"),
+    ("failed-constructor", "#[constructor(new)] class K2 { } try { var o = K2.new(1, 2); } catch e { prev = e; }"),
+    ("failed-fiber-start", "try { var fb = Fiber.new(|a, b| a); } catch e { prev = e; }"),
+    ("failed-call-deep", "fn d(n) { var pad = [n]; if n == 0 { return nil + 1; } return d(n - 1); } try { d(20); } catch e { prev = e; }"),
+    ("failed-in-native-callback", "try { prev = [1, 2, 3].iter().map(|v| v + nil).collect(); } catch e { prev = e; }"),
     ("vector-window", "if prev == nil { prev = []; } prev.push([i]); if prev.len() > 4 { prev = prev[1..5]; }"),
 ]
 
